@@ -25,8 +25,21 @@ Proof.
 Qed.
 
 Lemma exec1_reader P s c :
-  exec1 csys (cstep P) s (0%nat, c) = match rstep P s with Some (s', _) => s' | None => s end.
-Proof. unfold exec1, cstep. simpl. destruct (rstep P s) as [[s' l]|]; reflexivity. Qed.
+  exec1 csys (cstep P) s (0%nat, c) = match rstep P s with Some (s', _) => ghost_r P s s' | None => s end.
+Proof. unfold exec1, cstep, cstep0. simpl. destruct (rstep P s) as [[s' l]|]; reflexivity. Qed.
+
+(* the read-coverage layer touches none of the fields of the base layer *)
+Lemma ghost_r_frame P s s' :
+  c_committed (ghost_r P s s') = c_committed s' /\ c_w (ghost_r P s s') = c_w s' /\ c_crem (ghost_r P s s') = c_crem s' /\
+  c_hN (ghost_r P s s') = c_hN s' /\ c_hC (ghost_r P s s') = c_hC s' /\ c_body (ghost_r P s s') = c_body s' /\
+  c_ver (ghost_r P s s') = c_ver s' /\ c_overlap (ghost_r P s s') = c_overlap s' /\ c_wr (ghost_r P s s') = c_wr s' /\
+  c_delivered (ghost_r P s s') = c_delivered s' /\ c_r (ghost_r P s s') = c_r s' /\ c_rd (ghost_r P s s') = c_rd s' /\
+  c_unread (ghost_r P s s') = c_unread s' /\ c_uncov (ghost_r P s s') = c_uncov s'.
+Proof.
+  unfold ghost_r, rc_read, rc_publish.
+  destruct (r_pc (c_rd s)); repeat match goal with |- context [if ?b then _ else _] => destruct b end;
+    repeat split; reflexivity.
+Qed.
 
 (* schedules in which only the reader (thread 0) runs: the writer has stopped for good *)
 Lemma reader_only_frame P sched : forall s, (forall tc, In tc sched -> fst tc = 0%nat) ->
@@ -43,7 +56,11 @@ Proof.
     rewrite exec1_reader.
     destruct (rstep P s) as [[s1 l]|] eqn:E.
     + destruct (rstep_frame P s s1 l E) as (A1 & A2 & A3 & A4 & A5 & A6 & A7 & A8 & A9 & A10).
-      destruct (IH s1 ltac:(intros tc Hin; apply Hall; right; exact Hin)) as (B1 & B2 & B4 & B5 & B6 & B8 & extra & B10 & B11).
+      destruct (ghost_r_frame P s s1) as (G1 & G2 & G3 & G4 & G5 & G6 & G7 & G8 & G9 & G10 & _).
+      rewrite <- G1 in A1. rewrite <- G2 in A2. rewrite <- G4 in A4. rewrite <- G5 in A5. rewrite <- G6 in A6.
+      rewrite <- G8 in A8. rewrite <- G10 in A10.
+      set (s1g := ghost_r P s s1) in *.
+      destruct (IH s1g ltac:(intros tc Hin; apply Hall; right; exact Hin)) as (B1 & B2 & B4 & B5 & B6 & B8 & extra & B10 & B11).
       cbv zeta in *. rewrite B1, B2, B4, B5, B6, B8, A1, A2, A4, A5, A6, A8. repeat split; auto.
       destruct A10 as [A10|(ln & A10 & _)].
       * exists extra. rewrite B10, A10. split; [reflexivity|]. rewrite A4, A6 in B11. exact B11.
